@@ -591,6 +591,23 @@ class MRunner(Runner):
                 result['out'] = [action.out for action in task.actions]
                 result['err'] = [action.err for action in task.actions]
 
+                if self.Child == Process:
+                    # a multiprocessing queue pickles in a feeder thread: an
+                    # error there is lost and the main process would wait for
+                    # this result forever. Pickle here instead.
+                    try:
+                        pickle.dumps(result)
+                    except Exception as exception:
+                        # values that can not be sent can not be saved either
+                        msg = (f"ERROR: Task '{task.name}' saving success: "
+                               "values or result can not be saved: "
+                               f"{exception}")
+                        task.values = {}
+                        task.result = None
+                        result['task'] = task.pickle_safe_dict()
+                        result.setdefault('failure', DependencyError(msg))
+                        # still not picklable: an error of this process
+                        pickle.dumps(result)
                 result_q.put(result)
         except (SystemExit, KeyboardInterrupt, Exception) as exception:
             # error, blow-up everything. send exception info to master process
